@@ -20,6 +20,7 @@ import PV.Model.Cov
 import PV.Model.Gevp
 import PV.Model.Names
 import PV.Model.Gls
+import PV.Model.Tree
 
 open Lean PV PV.Wire
 
@@ -407,6 +408,80 @@ def opIft (j : Json) : Except String Json := do
   | none => pure (obj [("exc", .str "singular")])
   | some X => pure (obj [("X", enc X)])
 
+/-- wire form of the trees of PV.Model.Tree: {"t":"leaf","k":"obs|corr|arr","id":n} | {"t":"str","s":..} |
+    {"t":"atom","j":..} | {"t":"list","l":[..]} | {"t":"dict","kv":[[key, tree], ..]} (pairs: key order matters) -/
+partial def decDTree (j : Json) : Except String Tree.T := do
+  let t : String ← get j "t"
+  match t with
+  | "leaf" => do
+    let k : String ← get j "k"
+    let kind ← match k with
+      | "obs" => pure Tree.Kind.obs | "corr" => pure Tree.Kind.corr | "arr" => pure Tree.Kind.arr
+      | _ => throw s!"bad kind {k}"
+    pure (Tree.T.leaf kind (← get j "id"))
+  | "str" => do pure (Tree.T.str (← get j "s"))
+  | "atom" => do pure (Tree.T.atom (← get j "j"))
+  | "list" => do
+    let l : List Json ← get j "l"
+    pure (Tree.T.list (← l.mapM decDTree))
+  | "dict" => do
+    let kv : List Json ← get j "kv"
+    let kv' ← kv.mapM (fun p => match p with
+      | .arr #[.str k, v] => do pure (k, ← decDTree v)
+      | _ => throw "pair expected")
+    pure (Tree.T.dict kv')
+  | _ => throw s!"bad tree tag {t}"
+
+def encKind : Tree.Kind → Json
+  | .obs => .str "obs" | .corr => .str "corr" | .arr => .str "arr"
+
+partial def encDTree : Tree.T → Json
+  | .leaf k i => obj [("t", .str "leaf"), ("k", encKind k), ("id", enc i)]
+  | .str s => obj [("t", .str "str"), ("s", .str s)]
+  | .atom a => obj [("t", .str "atom"), ("j", .str a)]
+  | .list l => obj [("t", .str "list"), ("l", .arr (l.map encDTree).toArray)]
+  | .dict kv => obj [("t", .str "dict"), ("kv", .arr (kv.map (fun (k, v) => Json.arr #[.str k, encDTree v])).toArray)]
+
+def encSlot : Tree.Slot → Json
+  | .one k i => obj [("one", .arr #[encKind k, enc i])]
+  | .many ids => obj [("many", enc ids)]
+
+def decSlot (j : Json) : Except String Tree.Slot :=
+  match j.getObjVal? "one" with
+  | .ok (.arr #[.str k, i]) => do
+    let kind ← match k with
+      | "obs" => pure Tree.Kind.obs | "corr" => pure Tree.Kind.corr | "arr" => pure Tree.Kind.arr
+      | _ => throw s!"bad kind {k}"
+    pure (.one kind (← jNat i))
+  | _ => match j.getObjVal? "many" with
+    | .ok l => do pure (.many (← dec l))
+    | _ => throw "slot expected"
+
+def treeErr : Tree.Err → String
+  | .notAlnum => "notAlnum" | .placeholderClash _ => "placeholderClash" | .valueError _ => "valueError"
+  | .indexError _ => "indexError" | .noPlaceholder => "noPlaceholder"
+
+/-- op "tree": {"what": "export", "reps", "d": dict-tree} -> {"nd": tree, "ol": [slot]} | {"exc": kind};
+               {"what": "import", "reps", "ol": [slot], "d": dict-tree} -> {"d": tree} | {"exc": kind} -/
+def opTree (j : Json) : Except String Json := do
+  let what : String ← get j "what"
+  let reps : String ← get j "reps"
+  let d ← match ← decDTree (← field j "d") with
+    | Tree.T.dict kv => pure kv
+    | _ => throw "dict expected at the root"
+  match what with
+  | "export" =>
+    match Tree.exportDict reps d with
+    | .ok (nd, ol) => pure (obj [("nd", encDTree (Tree.T.dict nd)), ("ol", .arr (ol.map encSlot).toArray)])
+    | .error e => pure (obj [("exc", .str (treeErr e))])
+  | "import" => do
+    let olj : List Json ← get j "ol"
+    let ol ← olj.mapM decSlot
+    match Tree.importDict reps ol d with
+    | .ok d' => pure (obj [("d", encDTree (Tree.T.dict d'))])
+    | .error e => pure (obj [("exc", .str (treeErr e))])
+  | _ => throw s!"unknown tree request {what}"
+
 def dispatch (op : String) (j : Json) : Except String Json :=
   match op with
   | "gamma" => opGamma false j
@@ -426,6 +501,7 @@ def dispatch (op : String) (j : Json) : Except String Json :=
   | "gevp" => opGevp j
   | "gls" => opGls j
   | "ift" => opIft j
+  | "tree" => opTree j
   | "sortnames" => opSortNames j
   | "select" => opSelect j
   | "jsonrep" => opJsonRep j
